@@ -110,6 +110,43 @@ def _flatten(obj, out):
         out.append(_scalar(obj))
 
 
+class SymBytes:
+    """Surrogate of ndarray.tobytes() for symbolic contents: 8 positions per element, hashable, comparable, sliceable on element
+    boundaries, concatenable."""
+    __slots__ = ("keys",)
+
+    def __init__(self, keys):
+        self.keys = tuple(keys)
+
+    def __len__(self):
+        return 8 * len(self.keys)
+
+    def __getitem__(self, item):
+        if not isinstance(item, slice) or item.step not in (None, 1):
+            raise Unsupported("indexing the bytes of a symbolic array other than by an element-aligned slice")
+        start, stop, _ = item.indices(len(self))
+        if start % 8 or stop % 8:
+            raise Unsupported("slice of the bytes of a symbolic array that is not aligned to elements")
+        return SymBytes(self.keys[start // 8: max(stop, start) // 8])
+
+    def __add__(self, other):
+        if isinstance(other, SymBytes):
+            return SymBytes(self.keys + other.keys)
+        return NotImplemented
+
+    def __eq__(self, other):
+        return isinstance(other, SymBytes) and self.keys == other.keys
+
+    def __ne__(self, other):
+        return not self.__eq__(other)
+
+    def __hash__(self):
+        return hash(self.keys)
+
+    def __repr__(self):
+        return "SymBytes(%d elements)" % len(self.keys)
+
+
 class ndarray:
     __array_priority__ = 0
 
@@ -259,8 +296,9 @@ class ndarray:
         return types.SimpleNamespace(writeable=not getattr(self, "_readonly", False), owndata=True, c_contiguous=True)
 
     def tobytes(self, order="C"):
-        """A hashable surrogate of the raw bytes: equal contents <=> equal result (used by caches keyed on array contents)."""
-        return repr((self.shape, tuple(v.key() for v in self.values()))).encode()
+        """A hashable surrogate of the raw bytes: equal contents <=> equal result (used by caches keyed on array contents).
+        Every element occupies 8 positions, like a float64, so that slices aligned to elements select elements."""
+        return SymBytes(v.key() for v in self.values())
 
     def fill(self, v):
         v = _scalar(v)
